@@ -33,6 +33,55 @@ class ToolingError(Exception):
     pass
 
 
+class ServerCrash(Exception):
+    pass
+
+
+CRASH_RE = re.compile(r"^(fatal error: [^\n]*|panic: [^\n]*)$", re.M)
+
+
+def server_crash(stderr):
+    """(kind, first frame of the server's code, excerpt) when the process was killed by an unrecovered panic or a fatal
+    runtime error whose first non-runtime frame lies in the server's packages; None otherwise (the harness's own failure)."""
+    m = None
+    for m in CRASH_RE.finditer(stderr):
+        break
+    if not m:
+        return None
+    tail = stderr[m.start():]
+    block = tail.split("\n\n", 2)
+    stack = "\n\n".join(block[:2])
+    frames = [l.strip() for l in stack.split("\n") if l and not l.startswith(("\t", " ")) and "(" in l and not l.startswith(("goroutine ", "fatal error", "panic:", "[signal"))]
+    for fr in frames:
+        if fr.startswith(("runtime.", "runtime/", "internal/runtime", "internal/", "sync.", "sync/", "panic(", "testing.")):
+            continue
+        if fr.startswith("github.com/juev/hledger-lsp/internal/"):
+            name = fr.split("(0x")[0].replace("github.com/juev/hledger-lsp/internal/", "")
+            name = re.sub(r"\(.*$", "", name) if name.count("(") > 1 else name
+            return (m.group(1)[:200], name[:120], tail[:3000])
+        return None
+    return None
+
+
+def replay_crash(prop, rp):
+    """bin/check --replay of a server-crash divergence: run the same harness command on the same cases"""
+    run = Run(prop, None, None)
+    c = rp["case"]
+    run._in_crash = True
+    crashed = False
+    for _ in range(4):
+        try:
+            run.harness(c["harness_command"], c["cases"], race=c.get("race", False), args=tuple(c.get("args") or ()), env_extra=c.get("env_extra") or None)
+        except ServerCrash:
+            crashed = True
+            break
+    run._in_crash = False
+    if crashed:
+        run.diverge(rp["sig"], rp.get("what", ""), c, None)
+    run.rule = "replay of a recorded crash of the server's code"
+    run.finish(confirm=lambda d: True)
+
+
 def die_tooling(msg):
     sys.stdout.flush()
     print("TOOLING-FAILURE: " + msg, file=sys.stderr)
@@ -308,6 +357,13 @@ class Run:
         self.last_harness_stderr = p.stderr.decode("utf-8", "replace")
         self.last_harness_rc = p.returncode
         if p.returncode != 0 and not allow_fail:
+            crash = server_crash(self.last_harness_stderr)
+            if crash and not getattr(self, "_in_crash", False):
+                # the process died INSIDE the server's code (unrecovered panic, fatal runtime error such as concurrent
+                # map writes): that is the server crashing, not the harness failing
+                self._crash_verdict(command, cases, race, args, env_extra, crash)
+            if crash:
+                raise ServerCrash(crash)
             die_tooling("harness %s exited %d:\n%s" % (command, p.returncode, self.last_harness_stderr[-4000:]))
         res = []
         if os.path.exists(outp):
@@ -320,6 +376,27 @@ class Run:
         if not allow_fail and len(res) != len(cases):
             die_tooling("harness %s returned %d results for %d cases" % (command, len(res), len(cases)))
         return res
+
+    def _crash_verdict(self, command, cases, race, args, env_extra, crash):
+        """The harness process was killed by the server's code.  Reproduce (the same cases, up to 3 more runs: races need
+        luck), then report through finish() like any other divergence."""
+        kind, frame, excerpt = crash
+        self._in_crash = True
+        again = False
+        for _ in range(3):
+            try:
+                self.harness(command, cases, race=race, args=args, env_extra=env_extra)
+            except ServerCrash:
+                again = True
+                break
+            except SystemExit:
+                break
+        case = {"harness_command": command, "race": race, "args": list(args), "env_extra": env_extra or {}, "cases": cases[:400]}
+        self.divergences = [d for d in self.divergences]       # keep what was found before the crash
+        self.diverge("server-crash:" + frame, "the server's code killed the process: %s in %s\n%s" % (kind, frame, excerpt[:1500]), case, None)
+        if not self.rule:
+            self.rule = "the run ended when the server's code killed the harness process"
+        self.finish(confirm=lambda d: again if d["sig"].startswith("server-crash:") else False)
 
     # ------------------------------------------------------------------ bookkeeping
     def count(self, key=None, nontrivial=True):
